@@ -3,6 +3,7 @@ package main
 // Contract stubs: sync, sync/atomic, fmt, errors.
 
 import (
+	"path/filepath"
 	"unsafe"
 	"golang.org/x/tools/go/ssa"
 	"errors"
@@ -542,6 +543,17 @@ func rwLock(fr *frame, s structure, write bool) {
 
 // stubSets are per-harness stub collections selectable from checks/<id>.json.
 var stubSets = map[string]map[string]externalFn{
+	// directory listings come from the harness: os.ReadDir calls the harness
+	// package's VerifReadDir(dir) ([]os.DirEntry, error)
+	"harness-readdir": {
+		"os.ReadDir": func(fr *frame, args []value) value {
+			if fr.i.p == nil || fr.i.p.c == nil {
+				panic(pathEnd{stUnsupported, "os.ReadDir outside a path"})
+			}
+			fn := fr.i.lookupFunc(fr.i.p.c.H.Pkg, "VerifReadDir")
+			return callSSA(fr.i, fr, 0, fn, args, nil)
+		},
+	},
 	// the harness file table (vrt.WriteFile / vrt.Chdir) as the file system
 	"vfs": {
 		"os.ReadFile": func(fr *frame, args []value) value {
@@ -549,7 +561,7 @@ var stubSets = map[string]map[string]externalFn{
 			if !ok {
 				panic(pathEnd{stUnsupported, "os.ReadFile with a symbolic name"})
 			}
-			c, ok := fr.i.vfs[name]
+			c, ok := fr.i.vfs[filepath.Clean(name)]
 			if !ok {
 				return tuple{[]value(nil), loadGlobalErr(fr, "io/fs", "ErrNotExist")}
 			}
@@ -557,7 +569,7 @@ var stubSets = map[string]map[string]externalFn{
 		},
 		"os.Stat": func(fr *frame, args []value) value {
 			name, _ := args[0].(string)
-			if _, ok := fr.i.vfs[name]; ok {
+			if _, ok := fr.i.vfs[filepath.Clean(name)]; ok {
 				panic(pathEnd{stUnsupported, "os.Stat of an existing vfs file"})
 			}
 			return tuple{iface{}, loadGlobalErr(fr, "io/fs", "ErrNotExist")}
